@@ -108,36 +108,35 @@ mut("C02", "timeout-true-only-when-past", [("librfn/fibre.c", "\tif (cyclecmp32(
 # ---------------------------------------------------------------------------------------------------- C06 / C03 interruption
 G = "harness/C06_fibre_irq.c"
 def irq(nf, pmax, amax, tiers, timeout):
-    d = ["-DNF=%d" % nf, "-DPMAX=%d" % pmax, "-DAMAX=%d" % amax]
-    us = ["list_contains.0:%d" % (nf + 1), "handle_timerq.0:%d" % (nf + 1), "list_insert_sorted.0:%d" % (nf + 1), "messageq_claim.0:%d" % (amax + 2)]
-    b = "pool of %d fibres, at most %d requests pending at entry and at most %d interrupt-context requests arriving during the call (at any of its atomic operations)" % (nf, pmax, amax)
+    """interruption harnesses.  Everything except the bounded multi-iteration cross-check of the drain loop runs with up to 8 requests
+    pending at entry and any number of requests (up to the queue's capacity) arriving at every atomic operation: not bounded in arrivals."""
+    full = ["-DNF=%d" % nf, "-DPMAX=8", "-DAMAX=9", "-DIRQ_BURST=8"]
+    small = ["-DNF=%d" % nf, "-DPMAX=%d" % pmax, "-DAMAX=%d" % amax]
+    us = ["list_contains.0:%d" % (nf + 1), "handle_timerq.0:%d" % (nf + 1), "list_insert_sorted.0:%d" % (nf + 1), "messageq_claim.0:11"]
+    bf = "pool of %d fibres; up to 8 requests pending at entry (the real capacity) and any number of interrupt-context requests, up to capacity, arriving at every atomic operation of the call" % nf
+    bs = "pool of %d fibres, at most %d requests pending at entry and at most %d interrupt-context requests arriving during the call (at any of its atomic operations)" % (nf, pmax, amax)
+    NOTE = "thread-modular query (interrupt handlers fire inside the call): no native replay"
     out = []
     for a in range(nf + 1):
         for q in range(nf + 1 - a):
-            dd = d + ["-DFIX_NRQ=%d" % a, "-DFIX_NTQ=%d" % q]
-            tag = "_f%d_p%d_a%d_rq%d_tq%d" % (nf, pmax, amax, a, q)
+            part = ["-DFIX_NRQ=%d" % a, "-DFIX_NTQ=%d" % q]
             out += [
               H("irq_drain_loop_step_f%d_rq%d_tq%d" % (nf, a, q), G, "h_irq_drain_step", ["handle_atomic_runq", "make_runnable", "messageq_receive", "messageq_release"],
-                defs=["-DNF=%d" % nf, "-DPMAX=8", "-DAMAX=9", "-DIRQ_BURST=8", "-DFIX_NRQ=%d" % a, "-DFIX_NTQ=%d" % q], shadow=True, unwind=20,
-                unwindset=us + ["handle_atomic_runq.0:3"], timeout=timeout, tiers=tiers, solvers=("cadical", "minisat"), replayable=False,
-                bounded="pool of %d fibres; NOT bounded in pending requests (up to the real capacity 8), arrivals (up to capacity at every interruption point) or loop iterations (loop-cut rule: one iteration from an arbitrary invariant state, induction)" % nf,
-                note="thread-modular query (interrupt handlers fire inside the call): no native replay"),
-              H("irq_handle_atomic_runq" + tag, G, "h_irq_drain", ["handle_atomic_runq", "make_runnable", "messageq_receive", "messageq_release"], defs=dd, shadow=True, unwind=12,
-                unwindset=us + ["handle_atomic_runq.0:%d" % (pmax + amax + 1)], timeout=timeout, tiers=[t for t in tiers if t == "thorough"], solvers=("cadical",), bounded=b, replayable=False,
-                note="thread-modular query (interrupt handlers fire inside the call): no native replay"),
-              H("irq_scheduler_next" + tag, G, "h_irq_next", ["fibre_scheduler_next", "get_next_wakeup", "messageq_empty", "update_current_state", "handle_timerq"], defs=dd, shadow=True, unwind=12,
-                unwindset=us, replace_calls=["handle_atomic_runq:handle_atomic_runq_irq_contract"], restrict_fp=FP, timeout=timeout, tiers=tiers, solvers=("cadical", "minisat"), bounded=b, replayable=False,
-                note="thread-modular query (interrupt handlers fire inside the call): no native replay"),
+                defs=full + part, shadow=True, unwind=20, unwindset=us + ["handle_atomic_runq.0:3"], timeout=timeout, tiers=tiers, solvers=("cadical", "minisat"), replayable=False,
+                bounded=bf + "; loop iterations unbounded (loop-cut rule: one iteration from an arbitrary invariant state, induction)", note=NOTE),
+              H("irq_handle_atomic_runq_f%d_p%d_a%d_rq%d_tq%d" % (nf, pmax, amax, a, q), G, "h_irq_drain", ["handle_atomic_runq", "make_runnable", "messageq_receive", "messageq_release"],
+                defs=small + part, shadow=True, unwind=12, unwindset=us + ["handle_atomic_runq.0:%d" % (pmax + amax + 1)], timeout=timeout, tiers=[t for t in tiers if t == "thorough"],
+                solvers=("cadical", "minisat"), bounded=bs, replayable=False, note=NOTE + "; bounded multi-iteration run of the whole loop, cross-check of the step contract"),
+              H("irq_scheduler_next_f%d_rq%d_tq%d" % (nf, a, q), G, "h_irq_next", ["fibre_scheduler_next", "get_next_wakeup", "messageq_empty", "update_current_state", "handle_timerq"],
+                defs=full + part, shadow=True, unwind=20, unwindset=us, replace_calls=["handle_atomic_runq:handle_atomic_runq_irq_contract"], restrict_fp=FP, timeout=timeout, tiers=tiers,
+                solvers=("cadical", "minisat"), bounded=bf, replayable=False, note=NOTE),
             ]
-            if a == 0 and q == 0:
-                out += [
-                  H("irq_fibre_run_atomic_f%d_p%d_a%d" % (nf, pmax, amax), G, "h_irq_run_atomic", ["fibre_run_atomic", "messageq_claim", "messageq_send", "add_taint"], defs=d + ["-DFIX_NRQ=1", "-DFIX_NTQ=1"], shadow=True,
-                    unwind=12, unwindset=us, timeout=timeout, tiers=tiers, solvers=("cadical",), bounded=b, replayable=False, note="thread-modular query: no native replay"),
-                  H("irq_fibre_run_atomic_full_f%d_a%d" % (nf, amax), G, "h_irq_run_atomic", ["fibre_run_atomic", "messageq_claim", "add_taint"], defs=["-DNF=%d" % nf, "-DPMAX=8", "-DAMAX=%d" % amax, "-DFIX_NRQ=1", "-DFIX_NTQ=0"], shadow=True,
-                    unwind=12, unwindset=us, timeout=timeout, tiers=tiers, solvers=("cadical",), bounded="up to 8 requests pending at entry (the full queue), %d arrivals" % amax, replayable=False, note="thread-modular query: no native replay"),
-                  H("irq_fibre_eventq_send_f%d_a%d" % (nf, amax), G, "h_irq_eventq_send", ["fibre_eventq_send", "fibre_eventq_claim", "fibre_eventq_receive", "fibre_eventq_release", "fibre_eventq_init", "fibre_run_atomic"],
-                    defs=d + ["-DFIX_NRQ=1", "-DFIX_NTQ=1"], shadow=True, unwind=12, unwindset=us, timeout=timeout, tiers=tiers, solvers=("cadical",), bounded=b, replayable=False, note="thread-modular query: no native replay"),
-                ]
+    out += [
+      H("irq_fibre_run_atomic_f%d" % nf, G, "h_irq_run_atomic", ["fibre_run_atomic", "messageq_claim", "messageq_send", "add_taint"], defs=full + ["-DFIX_NRQ=1", "-DFIX_NTQ=1"], shadow=True,
+        unwind=20, unwindset=us, timeout=timeout, tiers=tiers, solvers=("cadical", "minisat"), bounded=bf, replayable=False, note=NOTE),
+      H("irq_fibre_eventq_send_f%d" % nf, G, "h_irq_eventq_send", ["fibre_eventq_send", "fibre_eventq_claim", "fibre_eventq_receive", "fibre_eventq_release", "fibre_eventq_init", "fibre_run_atomic"],
+        defs=full + ["-DFIX_NRQ=1", "-DFIX_NTQ=1"], shadow=True, unwind=20, unwindset=us, timeout=timeout, tiers=tiers, solvers=("cadical", "minisat"), bounded=bf, replayable=False, note=NOTE),
+    ]
     return out
 
 SHARED.update(sched_quick=Q, sched_thorough=T, irq=irq, TRUST=TRUST, ASSUME=ASSUME, EXPL=EXPL, mc=_mc)
